@@ -7,7 +7,7 @@ from odata_query import ast
 from odata_query.roundtrip import AstToODataVisitor
 import checks.c09 as c09
 
-PROP_MODS = ["ODataVerif.Props.C12Orm", "ODataVerif.Tie.Sql", "ODataVerif.Tie.SqlTemplates", "ODataVerif.Tie.ExceptionTree", "ODataVerif.Tie.ParserTables", "ODataVerif.Props.C12", "ODataVerif.Props.C10Image", "ODataVerif.Props.C06Image"]
+PROP_MODS = ["ODataVerif.Props.C12Orm", "ODataVerif.Props.C12Complete", "ODataVerif.Tie.Sql", "ODataVerif.Tie.SqlTemplates", "ODataVerif.Tie.ExceptionTree", "ODataVerif.Tie.ParserTables", "ODataVerif.Props.C12", "ODataVerif.Props.C10Image", "ODataVerif.Props.C06Image"]
 
 def rel_filters():
     """paths and lambdas over the relational schema (P root): well-typed by construction"""
@@ -33,6 +33,12 @@ def rel_filters():
         ast.CollectionLambda(I("tags"), ast.Any(), ast.Lambda(I("t"), ast.Compare(ast.Eq(), A("t", "a"), one))),
         ast.CollectionLambda(A("o", "ps"), ast.Any(), ast.Lambda(I("q"), ast.Compare(ast.Eq(), A("q", "n"), one))),
         ast.CollectionLambda(I("kids"), ast.Any(), ast.Lambda(I("k"), ast.Compare(ast.Eq(), I("a"), one))),
+        # a lambda whose body is a bare field / path / literal (not a condition): refused or translated, never an internal error
+        ast.CollectionLambda(I("kids"), ast.Any(), ast.Lambda(I("k"), A("k", "x"))), ast.CollectionLambda(I("kids"), ast.All(), ast.Lambda(I("k"), A("k", "x"))),
+        ast.CollectionLambda(I("kids"), ast.Any(), ast.Lambda(I("k"), ast.Boolean("true"))), ast.CollectionLambda(I("kids"), ast.Any(), ast.Lambda(I("k"), I("k"))),
+        ast.CollectionLambda(A("o", "ps"), ast.Any(), ast.Lambda(I("q"), ast.CollectionLambda(A("q", "kids"), ast.Any(), ast.Lambda(I("k"), A("k", "x"))))),
+        ast.CollectionLambda(I("tags"), ast.Any(), ast.Lambda(I("t"), A("t", "label"))), ast.CollectionLambda(I("kids"), ast.Any(), ast.Lambda(I("k"), A("k", "o", "name"))),
+        ast.BoolOp(ast.And(), ast.CollectionLambda(I("kids"), ast.Any(), ast.Lambda(I("k"), A("k", "x"))), ast.Compare(ast.Eq(), I("a"), one)),
         ast.Compare(ast.Eq(), sc.call("length", I("zz")), one), sc.call("contains", I("zz"), sc.S("a")),
         # two relationships with the same attribute name on different models (P.o -> O, P.w -> W, W.o -> Tag):
         ast.BoolOp(ast.And(), ast.Compare(ast.Eq(), A("o", "name"), sc.S("x")), ast.Compare(ast.Eq(), A("w", "o", "name"), sc.S("y"))),
